@@ -142,9 +142,12 @@ var msgs = []string{
 	"edge \u007f\u0080\u0081 case", "\u0080", "xÿy", "emoji \U0001F4E7", "tab\there", "ASCII only ~",
 }
 
+// coherent annotations, including replies relayed from servers that send no enhanced code
+// (EnhancedCode{0,0,0} = "not set")
 var coherentCodes = [][4]int{
 	{550, 5, 1, 1}, {450, 4, 2, 0}, {451, 4, 0, 0}, {554, 5, 7, 0}, {552, 5, 3, 4}, {421, 4, 4, 2},
 	{501, 5, 5, 4}, {452, 4, 5, 3}, {535, 5, 7, 8}, {454, 4, 7, 0},
+	{550, 0, 0, 0}, {450, 0, 0, 0}, {554, 0, 0, 0}, {421, 0, 0, 0},
 }
 
 func genCode(r *vh.Rng, coherentOnly bool) (int, [3]int) {
@@ -262,7 +265,12 @@ func MsgAnnotated(n *Node) bool {
 	return false
 }
 
-func pairOk(code int, e [3]int) bool { return e[0] == code/100 && (e[0] == 4 || e[0] == 5) }
+func pairOk(code int, e [3]int) bool {
+	if e == [3]int{0, 0, 0} { // enhanced code not set: a 4yz/5yz basic code is enough
+		return code/100 == 4 || code/100 == 5
+	}
+	return e[0] == code/100 && (e[0] == 4 || e[0] == 5)
+}
 
 // WellFormed: every annotation is class-coherent, field wrappers carry both codes or none,
 // and a temporariness marker never contradicts the annotation the reply is built from.
@@ -322,6 +330,18 @@ func WireEnch(code int, e smtp.EnhancedCode) string {
 	return fmt.Sprintf("%d.%d.%d", e[0], e[1], e[2])
 }
 
+// RawEnch prints the enhanced code as stored (what a failure report's Status field shows).
+func RawEnch(e smtp.EnhancedCode) string { return fmt.Sprintf("%d.%d.%d", e[0], e[1], e[2]) }
+
+// CanonStored renders an error stored by the queue (no wire-level fill-in of a missing code).
+func CanonStored(r *smtp.SMTPError) string {
+	m := "text:" + vh.HexRunes(r.Message)
+	if r.Message == "Internal server error" {
+		m = "generic"
+	}
+	return fmt.Sprintf("%d %s %s", r.Code, RawEnch(r.EnhancedCode), m)
+}
+
 // CanonReply renders a reply the way the Lean driver prints it.
 func CanonReply(r *smtp.SMTPError) string {
 	m := "text:" + vh.HexRunes(r.Message)
@@ -341,6 +361,9 @@ func CheckReply(out *vh.Out, where, op string, n *Node, r *smtp.SMTPError, mangl
 		return
 	}
 	we := WireEnch(r.Code, r.EnhancedCode)
+	if where == "queue" {
+		we = RawEnch(r.EnhancedCode) // stored errors are printed into reports as they are
+	}
 	cls := r.Code / 100
 	if we == "none" || int(we[0]-'0') != cls || (cls != 4 && cls != 5) {
 		out.Violation("C16/"+where+"-class-mismatch", op, fmt.Sprintf("reply %d %s", r.Code, we))
